@@ -198,6 +198,24 @@ def run_case(case, ctx):
     if o.outcome == "ok":
         labels = {s["label"]: s["addr"] for s in o.stmts if s["label"] in ("LB", "LA")}
     elif has_label:
+        # a rejected program shows no addresses, but the layout is known: LB = origin, the statement at origin+1 with 1..5 bytes,
+        # ZZ9 after it, LA after ZZ9.  If the exact result fits the position for EVERY possible statement size the rejection
+        # is a rejection of a valid statement; an EQU over a label stays a don't-care (the tool defines EQU over constants)
+        org = next((int(l.split("$")[1], 16) for l in case["lines"] if l.startswith(" ORG $")), 0)
+        cands = []
+        for size in range(1, 6):
+            labels = {"LB": org, "LA": org + 1 + size + 1}
+            a_ = term_value(left, labels)
+            b_ = term_value(right, labels) if right else None
+            if op == "/" and b_ == 0:
+                cands.append(None)
+            else:
+                cands.append(a_ if not op else {"+": a_ + b_, "-": a_ - b_, "*": a_ * b_, "/": tdiv(a_, b_) if b_ else 0}[op])
+        lim = 255 if WIDTH.get(pos, 16) == 8 else 65535
+        if pos not in ("equ",) and all(c is not None and 0 <= c <= lim for c in cands) and org + 8 < 0x10000:
+            ctx.outcome("rejected-valid")
+            ctx.violation("expr", pos, "REJECTED-VALID", dict(wit, possible_values=sorted(set(cands))), dict(tr, result="in-range", symbolic=True))
+            return
         ctx.outcome("rejected-with-label")
         ctx.notes["rejected-with-label/" + pos] += 1
         return
